@@ -223,7 +223,7 @@ def bad_frames(r):
 def gen(seed, tier):
     r = random.Random(seed * 1000003 + 17)
     quick = tier == 'quick'
-    scale = 1 if quick else 10
+    scale = 6 if quick else 60
     cases = []
     good = []
     # --- encode / round trip: every payload length x escape densities; checksum 0x10; header extremes
